@@ -353,6 +353,11 @@ EcbPhase(s, t) ==
 
 (* _task_ending: registry move, slot release, (map: per-call semaphore release), user callback *)
 Ending(s, t) ==
+  IF t \notin SeqSetL(s.running) /\ t \notin SeqSetL(s.cancelled)
+  THEN (* the pool has forgotten the task under its feet (only after misuse: the pool was unlocked while closing and
+          closed over a task requested afterwards): both lookups raise KeyError, nothing is released, no callback *)
+       TaskDone(s, t, "exc", "KeyError")
+  ELSE
   LET inRun == t \in SeqSetL(s.running)
       s1 == [s EXCEPT !.running = IF inRun THEN RemoveFirst(@, t) ELSE @,
                       !.cancelled = IF inRun THEN @ ELSE RemoveFirst(@, t),
